@@ -319,7 +319,12 @@ let () =
                    | "flag" -> named tb.t_flags
                    | _ -> "unknown-op")
                | "dispatch2", [ entry; beh; lbo; h ] -> (
-                   match request_deserialize tb env (bytes_of_hex h) with
+                   let direct =
+                     if String.length h = 4 && String.sub h 0 2 = "ff" then
+                       match vendor_of_u8 tb (z_of_hex (String.sub h 2 2)) with Some c -> Some (ROk (ReqVendor c)) | None -> None
+                     else Some (request_deserialize tb env (bytes_of_hex h))
+                   in
+                   match (match direct with Some r -> r | None -> RPanic (cl "not-a-vendor-code")) with
                    | ROk r -> (
                        let variant, payload =
                          match r with ReqUnit v -> (v, VUnit) | ReqVendor c -> (cl "Vendor", VZ c) | ReqBody (v, x) -> (v, x)
@@ -337,7 +342,7 @@ let () =
                        | Some (log, HErr c) -> Printf.sprintf "log=%s result=err:%s same=true" (String.concat "," log) (hex_of_z c)
                        | _ -> "broken")
                    | RErr s -> Printf.sprintf "undecodable %02x" (int_of_z s)
-                   | RPanic s -> "panic " ^ str s
+                   | RPanic s -> if str s = "not-a-vendor-code" then "not-a-vendor-code" else "panic " ^ str s
                    | RFuel -> "fuel")
                | "dispatch1", [ entry; beh; h ] -> (
                    match apdu_parse (bytes_of_hex h) with
@@ -372,6 +377,8 @@ let () =
                      | "user" -> arb_user u
                      | "hmac" -> arb_hmac u
                      | "filtered" -> arb_filtered [ z_of_int (-7); z_of_int (-8) ] u
+                     | "subparams" -> arb_subparams u
+                     | "descref" -> arb_descref u
                      | _ -> failwith "arb type"
                    in
                    match r with
